@@ -8,6 +8,11 @@ import (
 )
 
 func validateMaps(env *Environment, errorSink *validation.ErrorSink) *Environment {
+	if len(errorSink.Errors) > 0 {
+		// key types may be unresolved or part of an alias cycle
+		return env
+	}
+
 	Visit(env, func(self Visitor, node Node) {
 		m, ok := node.(*Map)
 		if !ok {
